@@ -6,43 +6,12 @@ VERIF = os.path.dirname(HERE)
 BASELINE = ("cd /repo && env -u QUTIP_VERIF_HOOKS /venv/bin/python -m pytest -ra -q "
             "-p no:cacheprovider --timeout=900 --continue-on-collection-errors")
 
-# id -> dict(text, note, technique, design_ref)
-CLAIMED = {
- "C14": dict(
-   text=("Machine-checked proof (Coq 8.16) over a small-step model of "
-         "_generic_pmap/serial_map for every schedule, worker count, failing "
-         "subset, fail_fast setting and expiry point: in-flight bound, "
-         "exactly-once delivery to the reducer, positional results, errors "
-         "never dropped, fewer than num_workers submissions after a stop "
-         "signal, serial/parallel agreement.  The model is tied to "
-         "parallel.py on every run by exact trace correspondence under a "
-         "scripted executor, wait and clock."),
-   note=("Trusted: Coq kernel, vm_compute, the scripted executor standing "
-         "for ProcessPoolExecutor/loky/MPI and the OS scheduler, the "
-         "hand-written model (validated by correspondence, not generated). "
-         "Not proved: termination bound of the model loop (fuel), real "
-         "process-pool behaviour (smoke run only)."),
-   technique="Coq proof by invariant induction over schedules + trace correspondence (vm_compute) against the real _generic_pmap",
-   design_ref="3/C14"),
- "C03": dict(
-   text=("Machine-checked proof (Coq 8.16 + MathComp) that every flag site of the source "
-         "(one theorem per Qobj(...) construction / in-place update in qobj.py, tensor.py, "
-         "superoperator.py, solver_base.py) attaches isherm/isunitary values that are sound "
-         "for the data it attaches them to, for all dimensions, all operand matrices over any "
-         "field with involution, and all tri-state cache states; an induction over every finite "
-         "history of operations and cache reads (C03_all_histories); and the consumer lemmas "
-         "(trace/diag real, dag shortcut).  The flag expressions are regenerated from the "
-         "current source by an ast translator on every run, validated against the flags real "
-         "operations attach, and an oracle compares every definite cached answer with "
-         "recomputation over ~10^4 operation/operand/cache-state/history combinations."),
-   note=("Trusted: Coq kernel, MathComp 1.15, translator tx_c03_flags.py (fails closed), "
-         "Section hypotheses on expm / solver evolution / unitary similarity, exact versions "
-         "of the tolerance predicates.  Oracle-only (no theorem): trunc_neg, literal flags in "
-         "superop_reps.py, QobjEvo.__call__ (Cython), tidyup, Qobj.data setter, transform "
-         "with a non-unitary matrix.  Seven genuine defects were found and fixed (known_findings.json)."),
-   technique="Coq/MathComp proof per generated flag term + induction over histories; ast translator regenerated each run; run-time flag correspondence; recomputation oracle",
-   design_ref="3/C03"),
-}
+# claims live in lib/claims/<ID>.json: {text, note, technique, design_ref}
+CLAIMED = {}
+_cd = os.path.join(HERE, "claims")
+for _f in sorted(os.listdir(_cd)):
+    if _f.endswith(".json"):
+        CLAIMED[_f[:-5]] = json.load(open(os.path.join(_cd, _f)))
 
 NOT_YET = {}
 
